@@ -485,4 +485,26 @@ PLANS["C18"] = {
     "assumptions": ["dump via public read API", "Scheduler trait is the public egglog::scheduler API"],
 }
 
+def c14_jobs(tier, seed, bin_dir, replay):
+    if replay:
+        return [eggmon(bin_dir, "exec", "replay", seed, tier, extra={"file": replay})]
+    q = tier == "quick"
+    js = shards(bin_dir, "c14", seed, tier, 1600, 80000)
+    cont0 = {"EGGLOG_PARALLEL_INTRA_CONTAINER_CUTOFF": "0", "EGGLOG_PARALLEL_INTER_CONTAINER_CUTOFF": "0", "EGGLOG_PARALLEL_REBUILD_CUTOFF": "0"}
+    js.append(eggmon(bin_dir, "c14", "c14-par4-containers0", seed * 1000 + 97, tier, n=(60 if q else 4000), threads=4, env=cont0, extra={"big-every": 20}))
+    js.append(eggmon(bin_dir, "c14", "c14-par4-zero", seed * 1000 + 99, tier, n=(30 if q else 3000), threads=4, env=ALL_ZERO, extra={"big-every": 0}))
+    return js
+
+
+PLANS["C14"] = {
+    "jobs": c14_jobs,
+    "level": "exploration",
+    "technique": "model-based runtime monitor (normal forms of container terms under a harness-side leaf partition) + seminaive/naive lock-step differential + C04 canonicity invariants after every command",
+    "level_text": "Histories over 11 container sorts (Vec, Set, MultiSet, Map with eq values, Map with non-colliding eq keys, Pair, and nested Vec<Vec>, Set<Pair>, Map<i64,Vec>, Vec<Set>; elements may be boxed containers) insert containers, write container-keyed functions and union leaves. Because only leaves are unioned, equality of container terms is decided by ~40 lines of normal-form code; after every command every table's row count must equal the number of distinct normal forms, sampled (check (= t1 t2)) must agree, the database must be canonical (no stale id inside a container, no duplicate container ids), and after every single rule iteration the outputs of join rules through container-keyed tables and of primitive rules (length, contains, count, get, first/second) must have the model's size on a semi-naive and a naive e-graph whose dumps must also be equal. Threshold cases with > 1000 containers reach the incremental container rebuild; parallel children force the parallel rebuild variants.",
+    "level_note": "Map key collisions are outside the claim and are refused by the generator on the model before a union is issued. Unions are only between leaves, which keeps the model trivially right; unions between boxed containers are covered by C03/C04's generators.",
+    "floors": {"quick": {"size_checks": 2000000, "iterations": 2000, "pair_questions": 80000, "histories_union_changed_container": 800, "path:container_rebuild_incremental": 1, "path:container_rebuild_nonincremental_parallel": 1, "path:table_refresh_rows_for_values": 1000},
+               "thorough": {"size_checks": 100000000, "iterations": 100000, "pair_questions": 4000000, "histories_union_changed_container": 40000, "path:container_rebuild_incremental": 100, "path:container_rebuild_nonincremental_parallel": 100, "path:table_refresh_rows_for_values": 50000}},
+    "assumptions": ["dump via public read API", "EGraph::get_size reports live rows"],
+}
+
 NOT_APPLICABLE = {}
